@@ -394,7 +394,7 @@ impl Check for C07 {
         "E1 single-node engine: crash = the whole tokio runtime is dropped at the chosen instant (every task cancelled at its await point, in-flight storage call parked after a chosen durable prefix); restart = fresh runtime + KeyspaceGroup::load_states_from_storage on the surviving SimStorage"
     }
     fn rule(&self) -> &'static str {
-        "Cases: for each seeded request history (3-24 sequential set/multi_set/del/multi_del/batch/purge requests, 1-3 keyspaces, timestamps near now / hours old / future, occasional storage failure) EVERY crash point of the grid is taken: after request group g for g in 0..24, and inside mutating storage call n in 1..16 with 0, 1 or all of its writes durable (72 crash points per history); the enumeration is complete over that grid for the stated number of histories. Beyond the grid, seeded cases add a second crash after the first restart, and one case in 24 runs a history over real SQLite / LMDB files (origin node ids up to 255 in the persisted timestamps) with the node stopped between requests and restarted on the same files (clean stop, or kill: the files are imaged while the backend is still open and the next incarnation runs on the image). After restart: rebuilt set (Serialize, validated) == store rows for every keyspace the store lists; the rest of the history is then replayed with the C02 oracle after every request; every write of an acknowledged request is still in the store (or superseded / purged). Non-trivial = >= 2 storage writes and >= 1 stored row. Distinct = hash of (store state at crash, storage trace, crash position)."
+        "Cases: for each seeded request history (3-24 sequential set/multi_set/del/multi_del/batch/purge requests, 1-3 keyspaces, timestamps near now / hours old / future, occasional storage failure) EVERY crash point of the grid is taken: after request group g for g in 0..24, and inside mutating storage call n in 1..16 with 0, 1 or all of its writes durable (72 crash points per history); the enumeration is complete over that grid for the stated number of histories. Beyond the grid, seeded cases add a second crash after the first restart, and one case in 23 runs a history over real SQLite / LMDB files (origin node ids up to 255 in the persisted timestamps) with the node stopped between requests and restarted on the same files (clean stop, or kill: the files are imaged while the backend is still open and the next incarnation runs on the image). After restart: rebuilt set (Serialize, validated) == store rows for every keyspace the store lists; the rest of the history is then replayed with the C02 oracle after every request; every write of an acknowledged request is still in the store (or superseded / purged). Non-trivial = >= 2 storage writes and >= 1 stored row. Distinct = hash of (store state at crash, storage trace, crash position)."
     }
     fn assumptions(&self) -> Vec<String> {
         vec![
@@ -413,15 +413,20 @@ impl Check for C07 {
     }
     fn budget(&self, tier: Tier) -> Budget {
         match tier {
-            Tier::Quick => Budget { wall_secs: 45, max_cases: SLOTS * HISTORIES_QUICK + 20_000, checkpoint_every: 64, workers: 16 },
-            Tier::Thorough => Budget { wall_secs: 900, max_cases: SLOTS * HISTORIES_THOROUGH + 1_000_000, checkpoint_every: 64, workers: 16 },
+            Tier::Quick => Budget { wall_secs: 45, max_cases: SLOTS * HISTORIES_QUICK * 23 / 22 + 20_000, checkpoint_every: 64, workers: 16 },
+            Tier::Thorough => Budget { wall_secs: 900, max_cases: SLOTS * HISTORIES_THOROUGH * 23 / 22 + 1_000_000, checkpoint_every: 64, workers: 16 },
         }
     }
     fn total_cases(&self, tier: Tier) -> Option<u64> {
         Some(self.budget(tier).max_cases)
     }
     fn generate(&self, seed: u64, idx: u64, tier: Tier) -> Value {
-        if idx % 24 == 23 {
+        let arm = arm_split(idx, 23);
+        let idx = match arm {
+            Ok(_) => idx,
+            Err(main) => main,
+        };
+        if let Ok(ordinal) = arm {
             // real-backend arm: SQLite / LMDB files, stops between requests
             let mut rng = rng_from(case_seed(seed ^ 0xBAC, idx));
             let cfg = GenCfg {
@@ -437,7 +442,7 @@ impl Check for C07 {
             let groups = rng.gen_range(3..=14);
             let events: Vec<Vec<Req>> = gen_history(&mut rng, groups, &cfg, 0.0).into_iter().map(|g| g.into_iter().map(|mut r| { r.route = "actor".into(); r }).collect()).collect();
             let stops: Vec<usize> = (0..rng.gen_range(1..=2)).map(|_| rng.gen_range(1..=groups)).collect();
-            let sc = RealScenario { backend: if idx % 48 == 23 { "sqlite" } else { "lmdb" }.to_string(), base_ms: cfg.base_ms, events, stops, kill: rng.gen_bool(0.4) };
+            let sc = RealScenario { backend: if ordinal % 2 == 0 { "sqlite" } else { "lmdb" }.to_string(), base_ms: cfg.base_ms, events, stops, kill: rng.gen_bool(0.4) };
             return serde_json::json!({ "real": sc });
         }
         let hist = if tier == Tier::Quick { HISTORIES_QUICK } else { HISTORIES_THOROUGH };
